@@ -548,6 +548,21 @@ class Rewriter:
         self.fired('R16:guard-drop-explicit')
         return b
 
+    # R20: RawVec growth -- the arena seen through its Alloc interface as a ghost "buffer owned" state -----------------
+    def rawvecgrow_rules(self, b):
+        b = self.sub('R20:use-stmt', r'(?m)^\s*use crate::AllocErr;\s*$', '', b)
+        b = self.sub('R20:variant-path', r'(?<![\w:])CapacityOverflow\b', 'CollectionAllocErr::CapacityOverflow', b)
+        b = self.map_calls(b, r'\bself\.a\.realloc', lambda m_, a: 'arena_realloc(ar, %s)' % ', '.join(a), 'R20:arena-realloc')
+        b = self.map_calls(b, r'\bAlloc::alloc', lambda m_, a: 'arena_alloc(ar, %s)' % ', '.join(a[1:]), 'R20:arena-alloc')
+        b = self.map_calls(b, r'\bself\.a\.dealloc', lambda m_, a: 'arena_dealloc(ar, %s)' % ', '.join(a), 'R20:arena-dealloc')
+        b = self.map_calls(b, r'\bself\.dealloc_buffer', lambda m_, a: 'self.dealloc_buffer(ar)', 'R12:thread-arena')
+        b = self.map_calls(b, r'\bLayout::from_size_align_unchecked', lambda m_, a: '(Layout { size_: %s, align_: %s })' % (a[0], a[1]), 'R8:layout-unchecked')
+        # `if let (Err(AllocErr), Infallible) = (&res, fallibility)`  ==  res is Err and the caller asked for the infallible flavour
+        b = self.sub('R20:err-and-infallible', r'if let \(Err\(AllocErr\), Infallible\) = \(&(\w+), (\w+)\)', r'if err_and_infallible(&\1, \2)', b)
+        # `res?` converts crate::AllocErr through `impl From<AllocErr> for CollectionAllocErr` (a constant function)
+        b = self.sub('R20:question-mark-from', r'\b(res)\?', r'(match \1 { Ok(v__) => v__, Err(_e__) => { return Err(CollectionAllocErr::AllocErr); } })', b)
+        return b
+
     # R19: Vec::DrainFilter -- slots as indices, the predicate and element moves as shims over a ghost slot state ----
     def drainfilter_rules(self, b):
         b = self.sub('R19:slice-view', r'(?m)^\s*let v = slice::from_raw_parts_mut\([^;]*\);\s*$', '', b)
@@ -556,7 +571,7 @@ class Rewriter:
         b = self.sub('R19:slot-addr', r'let (\w+): \*(?:const|mut) T = &(?:mut )?v\[([^\]]+)\];', r'let \1 = \2;', b)
         b = self.map_calls(b, r'(?<![\w.:])ptr::copy_nonoverlapping', lambda m_, a: 'slot_move(vs, %s)' % ', '.join(a[:2]), 'R19:slot-move')
         # Drop: `self.for_each(drop)` is by definition "call next() until None, dropping every item"
-        b = self.sub('R19:for_each-drop', r'\bself\.for_each\(drop\);', 'loop { match self.next(vs) { Some(x__) => { slot_value_dropped(x__); } None => { break; } } }', b)
+        b = self.sub('R19:for_each-drop', r'\bself\.for_each\(drop\);', 'loop { match self.next(vs) { Some(x__) => { slot_value_dropped(%sx__); } None => { break; } } }' % ('vs, ' if self.cfg.get('drop_takes_state') else ''), b)
         b = self.sub('R19:base-ptr', r'\bself\.vec\.as_mut_ptr\(\)', '(0usize)', b)
         b = self.method_to_fn(b, 'sub', 'idx_sub', 'R19:ptr-sub')
         b = self.map_calls(b, r'(?<![\w.:])ptr::copy', lambda m_, a: 'slots_shift_tail(vs, %s)' % ', '.join(a), 'R19:shift-tail')
@@ -586,11 +601,11 @@ class Rewriter:
         b = self.sub('R18:len', r'\b%s\.len\(\)' % re.escape(owner), 'self.len', b)
         b = self.sub('R18:len', r'\bself\.len\(\)', 'self.len', b)
         b = self.sub('R18:next-char', r'(?:unsafe\s*)?\{?\s*%s\.get_unchecked\((\w[\w.]*)\.\.(\w+)\)\.chars\(\)\.next\(\)\.(?:unwrap|unwrap_unchecked)\(\)\s*\}?' % re.escape(owner),
-                     r'next_char_at(\1, \2)', b)
+                     r'next_char_at(ts, \1, \2)', b)
         b = self.sub('R18:char-len', r'\b(\w+)\.len_utf8\(\)', r'char_len_utf8(\1)', b)
         # what an unwind out of the predicate would leave as the string's length: the guard's Drop value if there is a guard
         restorable = ('%s.restore_len()' % g) if g else 'self.len'
-        b = self.sub('R18:callback', r'(?<![\w.])f\((\w+)\)', r'cb_pred(%s, %sidx, %sdel_bytes, \1)' % (restorable, pre, pre), b)
+        b = self.sub('R18:callback', r'(?<![\w.])f\((\w+)\)', r'cb_pred(ts, %s, %sidx, %sdel_bytes, \1)' % (restorable, pre, pre), b)
         b = self.sub('R18:base-ptr', r'\b%s\.vec\.as_(?:mut_)?ptr\(\)' % re.escape(owner), '(0usize)', b)
         b = self.map_calls(b, r'(?<![\w.:])ptr::copy', lambda m_, a: 'text_copy(%s)' % ', '.join(a), 'R18:text-copy')
         b = self.map_calls(b, r'\b%s\.vec\.set_len' % re.escape(owner), lambda m_, a: 'self.len = %s' % a[0], 'R18:set_len')
@@ -666,6 +681,8 @@ class Rewriter:
             # R17: `Bound<&usize>` patterns lose the reference (the model's bounds hold values); `self.is_char_boundary` is a shim
             b = self.sub('R17:bound-deref', r'\b(Included|Excluded)\(&(\w+)\)', r'\1(\2)', b)
             b = self.sub('R17:is_char_boundary', r'\bself\.is_char_boundary\(', 'is_char_boundary(', b)
+        if kind == 'rawvecgrow':
+            b = self.rawvecgrow_rules(b)
         if kind == 'drainfilter':
             b = self.drainfilter_rules(b)
         if kind == 'strretain':
